@@ -181,13 +181,26 @@ def run(tier="quick", only_key=None):
                 continue
             n_scanned += 1
             body_only = ast.Module(body=node.body, type_ignores=[])
-            for ln, construct, why in astrules.ad_banned(body_only) + [(ln, c, w) for ln, c, w in astrules.ad_banned(ast.Module(body=[], type_ignores=[]))]:
+            for ln, construct, why in astrules.ad_banned(body_only, coercions=False):
                 ck.fail("ad-hostile", f"{full}#{construct}", f"{mod.path}:{ln}", f"{construct} on a differentiated path ({why})")
             for d in node.decorator_list:
                 if ast.unparse(d).split(".")[-1].split("(")[0] in ("custom_jvp", "custom_vjp"):
                     ck.fail("ad-hostile", f"{full}#@{ast.unparse(d)}", f"{mod.path}:{node.lineno}", "hand-written derivative rule on a stepper path")
             ck.ok("ad-hostile", full)
     ck.floor("functions scanned", n_scanned, 90)
+    # float(x) / int(x) / x.item(): decided on values - a coercion of a static size or order is harmless, a coercion of
+    # a value that depends on the state, dt or a coefficient leaves the differentiated computation
+    from props.c06 import traced_atoms
+
+    seen_co = set()
+    for ev in list(it.ctx.events) + list(it_e.ctx.events):
+        if ev["kind"] != "coerce-array-to-python" or not traced_atoms(ev):
+            continue
+        keyc = f"{ev['fn']}#coerce#{ev['src'][:60]}"
+        if keyc in seen_co:
+            continue
+        seen_co.add(keyc)
+        ck.fail("ad-hostile", keyc, f"{ev['file']}:{ev['line']}", f"`{ev['src'][:100]}`: python coercion of a value that depends on a differentiated input ({', '.join(traced_atoms(ev))[:80]})")
     ck.extra["functions_scanned"] = n_scanned
     # ---- R7.2 where guards
     n_where = 0
